@@ -8,6 +8,7 @@ set_option linter.unusedSimpArgs false
 namespace ExprModel.Refine
 open ExprModel
 open ExprModel.Spec
+open ExprModel.Spec.SML
 
 theorem lengthV_nonneg {v : Val} {n : Int} (h : lengthV v = .ok n) : 0 ≤ n := by
   cases v <;> simp only [lengthV, Except.ok.injEq] at h <;> first | (cases h; done) | omega
@@ -44,17 +45,59 @@ theorem loopIdx_inr {α : Type} {fb : Nat → α → SM (α ⊕ Val)} : ∀ (fue
 section
 variable {c : Cfg} {P : LProg} {ctx : Ctx}
 
+theorem loopIdxL_of_ok {α : Type} {fb : Nat → α → SM (α ⊕ Val)} {fbL : Nat → α → SML (α ⊕ Val)}
+    (hfbL : ∀ i acc σ x σ1, fb i acc σ = (.ok x, σ1) → fbL i acc σ = (.ok x, σ1)) :
+    ∀ (fuel i : Nat) (acc : α) (σ : SState) (r : α ⊕ Val) (σ' : SState),
+      loopIdx fb fuel i acc σ = (.ok r, σ') → loopIdxL fbL fuel i acc σ = (.ok r, σ')
+  | 0, i, acc, σ, r, σ', h => by
+    rw [loopIdx, SM.pure_apply] at h
+    obtain ⟨h1, h2⟩ := Prod.mk.inj h
+    cases h1; subst h2; rfl
+  | fuel + 1, i, acc, σ, r, σ', h => by
+    rw [loopIdx] at h
+    rcases SM.bind_cases h with ⟨e, _, he⟩ | ⟨x, σ1, hx, hrest⟩
+    · cases he
+    · rw [loopIdxL_succ, SML.bind_apply, hfbL _ _ _ _ _ hx]
+      cases x with
+      | inl acc' => exact loopIdxL_of_ok hfbL fuel (i + 1) acc' σ1 r σ' hrest
+      | inr v =>
+        simp only [SM.pure_apply] at hrest
+        obtain ⟨h1, h2⟩ := Prod.mk.inj hrest
+        cases h1; subst h2; rfl
+
+/-- the located form of a per-iteration function `eval b >>= post`: the body keeps its own locations, what the
+    builtin does with the body's value is raised at the builtin's location `l` -/
+def fbLoc (sc : SCfg) (ctx : Ctx) (b : Node) (l : Loc) {α : Type} (post : Nat → α → Val → SM (α ⊕ Val)) (coll : Val) :
+    Nat → α → SML (α ⊕ Val) :=
+  fun i acc => evalLoc sc ((coll, (i : Int)) :: ctx) b >>= fun x => raisedAt l (post i acc x)
+
+theorem fbLoc_ok {sc : SCfg} {ctx : Ctx} {b : Node} {l : Loc} {α : Type} {post : Nat → α → Val → SM (α ⊕ Val)} {coll : Val}
+    {fb : Nat → α → SM (α ⊕ Val)} (hfb : ∀ i acc, fb i acc = (eval sc ((coll, (i : Int)) :: ctx) b >>= post i acc))
+    (i : Nat) (acc : α) (σ : SState) (x : α ⊕ Val) (σ1 : SState) (h : fb i acc σ = (.ok x, σ1)) :
+    fbLoc sc ctx b l post coll i acc σ = (.ok x, σ1) := by
+  rw [hfb] at h
+  rcases SM.bind_cases h with ⟨e, _, he⟩ | ⟨v, σ2, hv, hrest⟩
+  · cases he
+  · unfold fbLoc
+    rw [SML.bind_apply, evalLoc_of_ok hv]
+    exact raisedAt_ok hrest
+
 theorem sim_loop {α : Type} {m : Meta} {name : String} {a b : Node} {ca PRO BODY EPI : List LInstr} {ci cs car c0 : Nat}
     (l : Loc) (fb : Val → Nat → α → SM (α ⊕ Val)) (fin : Int → α → SM Val) (acc0 : α)
     (S : α → List Val) (Extra : Scope → Nat → α → Prop)
+    (post : Val → Nat → α → Val → SM (α ⊕ Val))
+    (hfb : ∀ coll i acc, fb coll i acc = (eval (specOf c) ((coll, (i : Int)) :: ctx) b >>= post coll i acc))
     (heval : eval (specOf c) ctx (.builtin m name [a, b]) = (do
       let coll ← eval (specOf c) ctx a
       let n ← SM.lift (lengthV coll)
       let r ← loopIdx (fb coll) n.toNat 0 acc0
       epiOf (fin n) r))
+    (hevalL : evalLoc (specOf c) ctx (.builtin m name [a, b]) = (do
+      let coll ← evalLoc (specOf c) ctx a
+      let n ← raisedAt l (SM.lift (lengthV coll))
+      let r ← loopIdxL (fbLoc (specOf c) ctx b l (post coll) coll) n.toNat 0 acc0
+      raisedAt l (epiOf (fin n) r)))
     (ha : Sim c P ctx a ca) (hsmall : SmallColl c a) (hK : LoopK P.consts ci cs car c0)
-    (hbl : ∀ (ctx : Ctx) (σ : SState) (e : ErrClass) (σ' : SState),
-      eval (specOf c) ctx (.builtin m name [a, b]) σ = (.error e, σ') → P.blame e l)
     (hS0 : S acc0 = [])
     (hEx : ∀ sc j acc k v, (k = "i" ∨ k = "size" ∨ k = "array") → Extra sc j acc → Extra (scopeSet k v sc) j acc)
     (Hpro : ∀ (k : Nat) (st : List Val) (scs : List Scope) (σ : SState) (coll : Val), CodeAt P k PRO →
@@ -64,7 +107,8 @@ theorem sim_loop {α : Type} {m : Meta} {name : String} {a b : Node} {ca PRO BOD
       CodeAt P k0 (loopCode l ci cs car c0 BODY ++ EPI) →
       (N : Int) < 2 ^ 63 →
       ∀ (i : Nat) (acc : α) (σ : SState) (res : R (α ⊕ Val)) (σ1 : SState) (sc : Scope), i < N →
-        Base sc coll N i → Extra sc i acc → fb coll i acc σ = (res, σ1) → RBlame P l res →
+        Base sc coll N i → Extra sc i acc → fb coll i acc σ = (res, σ1) →
+        BAt P.blame (fbLoc (specOf c) ctx b l (post coll) coll i acc) σ →
         BodyPost c P S Extra coll N i (k0 + 24 + lsize BODY) (k0 + 32 + lsize BODY) st scs
           (vm (k0 + 24) (S acc ++ st) (sc :: scs) σ c.budget) res σ1)
     (Hepi : ∀ (coll : Val) (N k : Nat) (st : List Val) (scs : List Scope) (σ : SState) (sc' : Scope) (accF : α)
@@ -74,17 +118,19 @@ theorem sim_loop {α : Type} {m : Meta} {name : String} {a b : Node} {ca PRO BOD
       (∃ coll i acc σ0, fb coll i acc σ0 = (.ok (.inr v), σ)) →
       Reach c P (vm (k + 1) (v :: st) (sc' :: scs) σ c.budget) (vm (k + lsize EPI) (v :: st) scs σ c.budget)) :
     Sim c P ctx (.builtin m name [a, b]) (ca ++ PRO ++ emitLoop l ci cs car c0 BODY ++ EPI) := by
-  intro k st scs σ res σ' hcode hsc hev
-  have hev0 := hev
+  intro k st scs σ res σ' hcode hsc hev hB
   rw [emitLoop_eq] at hcode ⊢
   rw [heval] at hev
+  rw [hevalL] at hB
   have hca := hcode.left.left.left
   have hpro := hcode.left.left.right
   have hloop := hcode.left.right
   have hepi := hcode.right
   rcases SM.bind_cases hev with ⟨e, hae, rfl⟩ | ⟨coll, σ1, hav, hrest⟩
-  · exact ha k st scs σ _ _ hca hsc hae
-  · refine Reach.runs (ha k st scs σ _ _ hca hsc hav) ?_
+  · exact ha k st scs σ _ _ hca hsc hae hB.left
+  · refine Reach.runs (ha k st scs σ _ _ hca hsc hav hB.left) ?_
+    have hB1 := hB.right (evalLoc_of_ok hav)
+    have hblen : RBlame P l (lengthV coll) := hB1.left.raised (SM.lift_apply _ _)
     obtain ⟨sc0, hex0, hp⟩ := Hpro _ st scs σ1 coll hpro
     refine Reach.runs hp ?_
     rw [SM.bind_apply, SM.lift_apply] at hrest
@@ -110,7 +156,7 @@ theorem sim_loop {α : Type} {m : Meta} {name : String} {a b : Node} {ca PRO BOD
       simp only [Prod.mk.injEq] at hrest
       obtain ⟨rfl, rfl⟩ := hrest
       have := Runs.len (c := c) (st := st) (scs := sc0 :: scs) (σ := σ1) (lim := c.budget) (x := coll) hlen
-        (by rw [hl]; exact RBlame.err (hbl _ _ _ _ hev0))
+        hblen
       rw [hl] at this
       exact this
     | ok n =>
@@ -143,12 +189,18 @@ theorem sim_loop {α : Type} {m : Meta} {name : String} {a b : Node} {ca PRO BOD
          lookup_set_same _ _ _⟩
       have hextra := hEx _ _ _ "i" (.int .int ((0 : Nat) : Int)) (.inl rfl)
         (hEx _ _ _ "array" coll (.inr (.inr rfl)) (hEx _ _ _ "size" (.int .int N) (.inr (.inl rfl)) hex0))
-      have hiter := fun res1 σ2 (hlv : loopIdx (fb coll) N 0 acc0 σ1 = (res1, σ2)) (hbr : RBlame P l res1) =>
-        loop_iter (fb coll) S Extra (fun sc j acc v h => hEx sc j acc "i" v (.inl rfl) h) coll N hnS
+      have hB2 := hB1.right (a := (N : Int)) (σ1 := σ1) (raisedAt_ok (by rw [SM.lift_apply, hl]))
+      simp only [Int.toNat_natCast] at hB2
+      have hiter := fun res1 σ2 (hlv : loopIdx (fb coll) N 0 acc0 σ1 = (res1, σ2))
+          (hbr : BAt P.blame (loopIdxL (fbLoc (specOf c) ctx b l (post coll) coll) N 0 acc0) σ1) =>
+        loop_iter (fb coll) (fbLoc (specOf c) ctx b l (post coll) coll) (fbLoc_ok (hfb coll)) S Extra (fun sc j acc v h => hEx sc j acc "i" v (.inl rfl) h) coll N hnS
           (k0 + 32 + lsize BODY) hhead hK (Hbody coll N k0 st scs hle hnS) N 0 acc0 _ σ1 res1 σ2 (by omega) hbase hextra hlv hbr
       rcases SM.bind_cases hrest with ⟨e, hle', rfl⟩ | ⟨r1, σ2, hlv, hrest2⟩
-      · exact hiter _ _ hle' (RBlame.err (hbl _ _ _ _ hev0))
-      · have hpost := hiter _ _ hlv (RBlame.ok _)
+      · exact hiter _ _ hle' hB2.left
+      · have hpost := hiter _ _ hlv hB2.left
+        have hlvL : loopIdxL (fbLoc (specOf c) ctx b l (post coll) coll) N 0 acc0 σ1 = (.ok r1, σ2) :=
+          loopIdxL_of_ok (fbLoc_ok (hfb coll)) _ _ _ _ _ _ hlv
+        have hbepi := (hB2.right hlvL).raised hrest2
         cases r1 with
         | inr v =>
           obtain ⟨sc', hr⟩ := hpost
@@ -164,7 +216,7 @@ theorem sim_loop {α : Type} {m : Meta} {name : String} {a b : Node} {ca PRO BOD
           obtain ⟨sc', hb', he', hr⟩ := hpost
           refine Reach.runs hr ?_
           have := Hepi coll N (k0 + 31 + lsize BODY) st scs σ2 sc' accF res σ' hepi' hb' he' hrest2
-            (fun e he => hbl _ _ e _ (he ▸ hev0))
+            hbepi
           exact this.to_ip hfinal
 end
 
